@@ -623,6 +623,36 @@ func errIs(e, target Term) Term {
 // havocAddressedLocals: an ignored callee may write through &x arguments.
 func (fv *FuncVerifier) havocAddressedLocals(call *ast.CallExpr, st *State) {
 	for _, a := range call.Args {
+		// a slice (or a sub-slice view) handed to an unknown callee may be written through:
+		// its contents become arbitrary, its length stays
+		if root := sliceRoot(a); root != nil {
+			if t := fv.info().TypeOf(a); t != nil {
+				if _, isSlice := t.Underlying().(*types.Slice); isSlice && fv.isAssignableExpr(root) {
+					func() {
+						defer func() {
+							if r := recover(); r != nil {
+								if _, ok := r.(unsupported); !ok {
+									panic(r)
+								}
+							}
+						}()
+						cur := fv.eval(root, st)
+						if cur.Sort == nil {
+							return
+						}
+						switch cur.Sort.Kind {
+						case KSlice:
+							na := fv.u.freshConst("hv", slArr(cur).Sort)
+							fv.assign(root, slMk(cur.Sort, na, slLen(cur)), st)
+						case KArray:
+							fv.assign(root, fv.u.freshConst("hv", cur.Sort), st)
+						}
+						fv.u.note("slice passed to an ignored call: its contents are arbitrary afterwards")
+					}()
+				}
+			}
+			continue
+		}
 		u, ok := ast.Unparen(a).(*ast.UnaryExpr)
 		if !ok || u.Op != token.AND {
 			continue
@@ -645,6 +675,32 @@ func (fv *FuncVerifier) havocAddressedLocals(call *ast.CallExpr, st *State) {
 		st.vars[obj] = v
 		fv.u.note("local %s passed by address to an ignored call: its value is arbitrary afterwards", id.Name)
 	}
+}
+
+// sliceRoot: for x, x[a:b], x.f[a:b] returns the expression denoting the sliced variable/field.
+func sliceRoot(e ast.Expr) ast.Expr {
+	e = ast.Unparen(e)
+	switch x := e.(type) {
+	case *ast.SliceExpr:
+		return ast.Unparen(x.X)
+	case *ast.Ident, *ast.SelectorExpr:
+		return e
+	}
+	return nil
+}
+
+func (fv *FuncVerifier) isAssignableExpr(e ast.Expr) bool {
+	switch x := ast.Unparen(e).(type) {
+	case *ast.Ident:
+		_, ok := fv.info().Uses[x].(*types.Var)
+		return ok
+	case *ast.SelectorExpr:
+		sel := fv.info().Selections[x]
+		return sel != nil && sel.Kind() == types.FieldVal
+	case *ast.IndexExpr:
+		return fv.isAssignableExpr(x.X)
+	}
+	return false
 }
 
 // evalReceiverChain: for an ignored call x.f(...).g(...), still visit the calls that
